@@ -1,7 +1,14 @@
 #!/bin/bash
-# Run once after a fresh restore, offline: builds the harness (warms the Go build cache).
+# Run once after a fresh restore, offline: builds the harness (warms the Go build
+# cache, also for the -race and instrumented builds of C11) and runs the
+# harness' own self-tests (explorer finds a seeded lost update and counts the
+# interleaving lattice; memory watch sees writes; legacy writer models regenerate
+# the 97 archived fixtures).
 set -eu
 cd "$(dirname "$0")"
 export GOFLAGS=-mod=mod GOPROXY=off GOSUMDB=off GOTOOLCHAIN=local
 ./run_check.sh build
+(cd harness && go test -count=1 ./internal/... 2>&1 | tail -8)
+# warm the race-detector build cache (used by C11's auxiliary pass)
+(cd harness && go build -race -o bin/verif_race_warm ./cmd/verif && rm -f bin/verif_race_warm) || true
 echo "setup ok"
